@@ -86,6 +86,7 @@ type c20Step struct {
 	S      uint64     `json:"s"`
 	Ok     bool       `json:"ok"`
 	Split  bool       `json:"split"` // Head: the node answers the refresh's duty request late (Resched)
+	N      uint64     `json:"n"`     // Resched: the number of the scheduling pass among those of its epoch (wired family)
 	K      uint64     `json:"k"`     // MsgStart / AttStart / Prepare: the node answers k slots later (the scenario has the MsgEnd / AttEnd / SubEnd step there)
 }
 
